@@ -332,6 +332,31 @@ fn line_nodes(n: usize) -> Vec<(usize, i32, i32)> {
 fn generate(rng: &mut Rng, tier: Tier, cases: &mut Vec<Case>) {
     let scale = if tier == Tier::Quick { 6 } else { 120 };
     let big: u64 = if tier == Tier::Quick { 0 } else { 6 };
+    // (0) exhaustive small scope: every digraph (no self-loops) on 3 nodes under every assignment of the three
+    //     positions along the axis (k = 1); thorough: also every digraph on 4 nodes (one random assignment each)
+    {
+        let pairs3: Vec<(usize, usize)> = (0..3).flat_map(|u| (0..3).filter(move |v| *v != u).map(move |v| (u, v))).collect();
+        let perms3: [[usize; 3]; 6] = [[0, 1, 2], [0, 2, 1], [1, 0, 2], [1, 2, 0], [2, 0, 1], [2, 1, 0]];
+        for mask in 0..(1u32 << pairs3.len()) {
+            for (pi, perm) in perms3.iter().enumerate() {
+                let edges: Vec<(usize, usize)> = pairs3.iter().enumerate().filter(|(i, _)| mask >> i & 1 == 1).map(|(_, e)| *e).collect();
+                let nodes: Vec<(usize, i32, i32)> = (0..3).map(|i| (i, 10 * perm[i] as i32, 3 * perm[i] as i32)).collect();
+                let c = Cell { axis: (mask as usize + pi) % 4, b: 0.25, bound: BIG, ncoords: 3, nodes, edges };
+                push_case(cases, "exhaustive3", c);
+            }
+        }
+        if tier == Tier::Thorough {
+            let pairs4: Vec<(usize, usize)> = (0..4).flat_map(|u| (0..4).filter(move |v| *v != u).map(move |v| (u, v))).collect();
+            for mask in 0..(1u32 << pairs4.len()) {
+                let mut perm: Vec<usize> = (0..4).collect();
+                rng.shuffle(&mut perm);
+                let edges: Vec<(usize, usize)> = pairs4.iter().enumerate().filter(|(i, _)| mask >> i & 1 == 1).map(|(_, e)| *e).collect();
+                let nodes: Vec<(usize, i32, i32)> = (0..4).map(|i| (i, 10 * perm[i] as i32, 3 * perm[i] as i32)).collect();
+                let c = Cell { axis: mask as usize % 4, b: 0.3, bound: BIG, ncoords: 4, nodes, edges };
+                push_case(cases, "exhaustive4", c);
+            }
+        }
+    }
     // (1) whole grids with random deletions, distinct keys, every axis, every listed b
     for round in 0..3 * scale {
         let w = 3 + rng.below(if round % 3 == 2 { 14 + big } else { 7 }) as usize;
